@@ -122,7 +122,7 @@ def lr_stage(ck: Check, prop_file: str, sizes_quick: Dict[str, int], sizes_thoro
         add_tree(f"misc#{j}", f)
     for d in (1, 5, 30):
         add_tree(f"nest{d}", lr_gen.nest_file(d))
-    for name, text, exp in lr_gen.catalogue():
+    for name, text, exp in lr_gen.catalogue([k.get("key") for k in ck.known]):
         cases.append({"kind": "catalogue", "name": name, "expect": exp,
                       "job": {"mode": "text", "text": text, "real": False}})
     for i in range(sz["sentences"]):
@@ -215,6 +215,11 @@ def lr_stage(ck: Check, prop_file: str, sizes_quick: Dict[str, int], sizes_thoro
             key = syn["out"] if syn["out"] != "syntax" else "syntax error"
             dist[f"{c['kind']}: {key}"] = dist.get(f"{c['kind']}: {key}", 0) + 1
             nontrivial.add((syn["out"], tuple(syn.get("reds", []))[-6:], syn.get("tok")))
+            if syn["out"] == "syntax":
+                k = syn["idx"]
+                b = ("at end of input" if syn["tok"] == "$end" else "token 0" if k == 0 else "token 1-4" if k < 5
+                     else "token 5-19" if k < 20 else "token 20-99" if k < 100 else "token 100+")
+                dist[f"syntax error position: {b}"] = dist.get(f"syntax error position: {b}", 0) + 1
             if len(samples) < 6 and c["kind"] in ("mutation", "catalogue"):
                 samples.append(f"{c['name']}: {syn['out']}" + (f" at token {syn['idx']} ({syn['tok']})" if syn["out"] == "syntax" else f" with {len(syn['reds'])} reductions"))
             if syn["out"] == "crash":
@@ -236,7 +241,8 @@ def lr_stage(ck: Check, prop_file: str, sizes_quick: Dict[str, int], sizes_thoro
                              replay(c, r, {"earley": documented}), found_input=True)
             if c["expect"] is not None and r.get("lexerr") is None and (c["expect"] == "accept") != accepted:
                 ck.violation(f"{label}: {c['name']}: the documentation promises `{c['expect']}` at the syntax level, "
-                             f"the parser says {syn['out']}", replay(c, r), found_input=True)
+                             f"the parser says {syn['out']}", replay(c, r), found_input=True,
+                             key="comment-at-eof" if "[comment-at-eof]" in c["name"] else None)
             if c["expect"] is not None and r.get("lexerr") is not None:
                 ck.violation(f"{label}: {c['name']}: lexer error {r['lexerr']} on a catalogue / valid text",
                              replay(c, r), found_input=True)
